@@ -243,6 +243,27 @@ func Load(repoDir, verifDir string, patterns []string) (*Engine, error) {
 							if mf != nil && mf.Pkg() != nil && strings.HasPrefix(mf.Pkg().Path(), RepoModule) {
 								msig := mf.Type().(*types.Signature)
 								_, recvIsPtr := msig.Recv().Type().(*types.Pointer)
+								if path := ms.Index(); recvIsPtr && len(path) > 1 {
+									// promoted pointer-receiver method: p.M() takes &p.Embedded implicitly
+									cur := p.TypesInfo.TypeOf(msel.X)
+									for _, i := range path[:len(path)-1] {
+										if cur == nil {
+											break
+										}
+										if pt, ok := cur.Underlying().(*types.Pointer); ok {
+											cur = pt.Elem()
+										}
+										st, ok := cur.Underlying().(*types.Struct)
+										if !ok || i >= st.NumFields() {
+											break
+										}
+										fv := st.Field(i)
+										if _, fieldIsPtr := fv.Type().Underlying().(*types.Pointer); !fieldIsPtr {
+											e.addrTaken[fv.Origin()] = true
+										}
+										cur = fv.Type()
+									}
+								}
 								rt := p.TypesInfo.TypeOf(msel.X)
 								if rt != nil && recvIsPtr {
 									if _, argIsPtr := rt.Underlying().(*types.Pointer); !argIsPtr {
@@ -290,7 +311,8 @@ func Load(repoDir, verifDir string, patterns []string) (*Engine, error) {
 		}
 		for i, f := range p.Syntax {
 			name := p.Fset.Position(f.Pos()).Filename; _ = i
-			if filepath.Base(name) != "verif_contracts.go" {
+			// verif_contracts.go and generated companions verif_contracts_<topic>.go
+			if b := filepath.Base(name); !strings.HasPrefix(b, "verif_contracts") || !strings.HasSuffix(b, ".go") {
 				continue
 			}
 			for _, cg := range f.Comments {
